@@ -18,6 +18,7 @@ import (
 	libocrtypes "github.com/smartcontractkit/libocr/ragep2p/types"
 
 	"github.com/smartcontractkit/chainlink-ccip/internal/mocks"
+	"github.com/smartcontractkit/chainlink-ccip/internal/plugintypes"
 	"github.com/smartcontractkit/chainlink-ccip/internal/reader"
 	readerpkg "github.com/smartcontractkit/chainlink-ccip/pkg/reader"
 	cciptypes "github.com/smartcontractkit/chainlink-ccip/pkg/types/ccipocr3"
@@ -188,6 +189,8 @@ func TestVerif_C04_history(t *testing.T) {
 	defer tsink.Close()
 	fsink := vOpenSink("C04_final")
 	defer fsink.Close()
+	rsink := vOpenSink("C04_round")
+	defer rsink.Close()
 	codec := mocks.NewCommitPluginJSONReportCodec()
 	for hi := 0; hi < nHist; hi++ {
 		w := &vC04World{logLen: map[cciptypes.ChainSelector]uint64{}, finalLen: map[cciptypes.ChainSelector]uint64{},
@@ -260,6 +263,7 @@ func TestVerif_C04_history(t *testing.T) {
 					diverged++
 				}
 				if string(outs[0]) != "ERR" {
+					vC04EmitRound(rsink, cls, hi, rd, prev, q, sh, outs[0], maxTree)
 					prev = outs[0]
 					reps, err := oracles[0].p.Reports(ctx, uint64(rd+1), prev)
 					if err == nil {
@@ -357,6 +361,70 @@ func TestVerif_C04_history(t *testing.T) {
 			map[string]any{"history": hi, "rounds": rounds, "byzantine": byz, "maxTree": maxTree, "reports": reportsMade, "transmit_true": transmits,
 				"landed": len(w.landed), "commits": fmt.Sprint(w.commits), "log": fmt.Sprint(w.logLen), "outcome_divergences": diverged})
 	}
+}
+
+// ---- whole-plugin round correspondence: (previous outcome, query, decoded attributed observations) -> outcome,
+// printed in the types of the C01 / C03 models (CommitConsensus.aobs, CommitSM.outcome)
+func vC04AddrID(b []byte) uint64 {
+	if len(b) == 0 {
+		return 0
+	}
+	return vHash48("addr:" + string(b))
+}
+func vC04RootID(b cciptypes.Bytes32) uint64 { return vHash48("root:" + string(b[:])) }
+
+func vC04OutcomeCoq(ob []byte) (string, bool) {
+	o, err := decodeOutcome(ob)
+	if err != nil {
+		return "", false
+	}
+	m := o.MerkleRootOutcome
+	if !m.RMNRemoteCfg.IsEmpty() || len(m.RMNReportSignatures) > 0 {
+		return "", false
+	}
+	ranges := cMap(m.RangesSelectedForReport, func(c plugintypes.ChainRange) string {
+		return cPair(cN(uint64(c.ChainSel)), cPair(cN(uint64(c.SeqNumRange.Start())), cN(uint64(c.SeqNumRange.End()))))
+	})
+	roots := cMap(m.RootsToReport, func(c cciptypes.MerkleRootChain) string {
+		return cTup(cN(uint64(c.ChainSel)), cPair(cN(uint64(c.SeqNumsRange.Start())), cN(uint64(c.SeqNumsRange.End()))), cN(vC04AddrID(c.OnRampAddress)), cN(vC04RootID(c.MerkleRoot)))
+	})
+	off := cMap(m.OffRampNextSeqNums, func(c plugintypes.SeqNumChain) string { return cPair(cN(uint64(c.ChainSel)), cN(uint64(c.SeqNum))) })
+	return cApp("mkOutcome", cZ(int64(m.OutcomeType)), ranges, roots, off, cN(uint64(m.ReportTransmissionCheckAttempts)), "[]", "(0%N, 0%N)"), true
+}
+
+func vC04EmitRound(sink *vSink, cls string, hi, rd int, prev, q []byte, aos []types.AttributedObservation, out []byte, maxTree uint64) {
+	prevC, ok1 := vC04OutcomeCoq(prev)
+	outC, ok2 := vC04OutcomeCoq(out)
+	dq, err := DecodeCommitPluginQuery(q)
+	if !ok1 || !ok2 || (err != nil && len(q) > 0) || dq.MerkleRootQuery.RMNSignatures != nil {
+		return
+	}
+	var obsC []string
+	for _, ao := range aos {
+		o, err := DecodeCommitPluginObservation(ao.Observation)
+		if err != nil {
+			continue // Outcome skips observations that do not decode
+		}
+		m := o.MerkleRootObs
+		if !m.RMNRemoteConfig.IsEmpty() {
+			return
+		}
+		roots := cMap(m.MerkleRoots, func(c cciptypes.MerkleRootChain) string {
+			return cTup(cN(uint64(c.ChainSel)), cN(vC04AddrID(c.OnRampAddress)), cPair(cN(uint64(c.SeqNumsRange.Start())), cN(uint64(c.SeqNumsRange.End()))), cN(vC04RootID(c.MerkleRoot)))
+		})
+		sc := func(l []plugintypes.SeqNumChain) string {
+			return cMap(l, func(c plugintypes.SeqNumChain) string { return cPair(cN(uint64(c.ChainSel)), cN(uint64(c.SeqNum))) })
+		}
+		var ks []cciptypes.ChainSelector
+		for k := range m.FChain {
+			ks = append(ks, k)
+		}
+		sort.Slice(ks, func(i, j int) bool { return ks[i] < ks[j] })
+		fch := cMap(ks, func(k cciptypes.ChainSelector) string { return cPair(cN(uint64(k)), cZ(int64(m.FChain[k]))) })
+		obsC = append(obsC, cPair(cN(uint64(ao.Observer)), cApp("mkObs", roots, sc(m.OnRampMaxSeqNums), sc(m.OffRampNextSeqNums), "rmn_none", fch)))
+	}
+	in := cTup(cZ(1), cN(uint64(vC04Dest)), cN(3), cN(maxTree), prevC, cBool(dq.MerkleRootQuery.RetryRMNSignatures), cList(obsC))
+	sink.Emit("C04_round", cls, len(obsC) >= 3, cPair(in, outC), map[string]any{"history": hi, "round": rd, "observations": len(obsC)})
 }
 
 // a Byzantine observation: decodable, different
